@@ -82,6 +82,9 @@ enum Spec {
     Walk { content: Segs, maxb: u64, fuel: u64 },
     Trunc { bs: Vec<u8>, maxb: u64 },
     Pump { cap: u64, plimit: u64, content: Segs, sizes: Vec<u64> },
+    /// the PTY task's `emit_output`, once per chunk (what run_pty_task does with every read); compared with
+    /// the same `pump` model as the pipes pump
+    PtyPump { cap: u64, plimit: u64, content: Segs, sizes: Vec<u64> },
     Capture { pmax: u64, amax: u64, content: Segs, sizes: Vec<u64> },
     Lifecycle { codes: Vec<u64> },
     /// a real background task through the router; variant: 0 normal, 1 unsupported tool, 2 invalid args,
@@ -114,7 +117,7 @@ fn coq_spec(s: &Spec) -> String {
         Spec::Pages { content, reqs } => format!("CPages {} {}", coq_segs(content), coq_list(reqs, |(o, m)| format!("({o}, {m})"))),
         Spec::Walk { content, maxb, fuel } => format!("CWalk {} {} {}", coq_segs(content), maxb, coq_nat(*fuel)),
         Spec::Trunc { bs, maxb } => format!("CTrunc {} {}", coq_bytes(bs), maxb),
-        Spec::Pump { cap, plimit, content, sizes } => format!("CPump {} {} {} {}", cap, plimit, coq_segs(content), coq_list_n(sizes)),
+        Spec::Pump { cap, plimit, content, sizes } | Spec::PtyPump { cap, plimit, content, sizes } => format!("CPump {} {} {} {}", cap, plimit, coq_segs(content), coq_list_n(sizes)),
         Spec::Capture { pmax, amax, content, sizes } => format!("CCapture {} {} {} {}", pmax, amax, coq_segs(content), coq_list_n(sizes)),
         Spec::Lifecycle { codes } => format!("CLifecycle {}", coq_list(codes, |c| coq_lev(*c))),
         Spec::Task { .. } | Spec::Bash { .. } => unreachable!("real runs are compared through derived specs"),
@@ -133,6 +136,7 @@ fn spec_json(s: &Spec) -> Value {
         Spec::Walk { content, maxb, fuel } => json!({"kind": "walk", "content": segs_json(content), "max_bytes": maxb, "fuel": fuel}),
         Spec::Trunc { bs, maxb } => json!({"kind": "truncate_utf8", "bytes_hex": hex::encode(bs), "max_bytes": maxb}),
         Spec::Pump { cap, plimit, content, sizes } => json!({"kind": "pump", "cap": cap, "preview_limit": plimit, "content": segs_json(content), "sizes": sizes}),
+        Spec::PtyPump { cap, plimit, content, sizes } => json!({"kind": "pty_pump", "cap": cap, "preview_limit": plimit, "content": segs_json(content), "sizes": sizes}),
         Spec::Capture { pmax, amax, content, sizes } => json!({"kind": "capture_stream", "preview_limit": pmax, "cap": amax, "content": segs_json(content), "sizes": sizes}),
         Spec::Lifecycle { codes } => json!({"kind": "lifecycle", "codes": codes}),
         Spec::Task { variant, out, err, cap, plimit, exit, cancel_after_ms, page, late_ms } => json!({"kind": "task", "variant": variant, "stdout": segs_json(out), "stderr": segs_json(err), "cap": cap, "preview_limit": plimit, "exit": exit, "cancel_after_ms": cancel_after_ms, "page": page, "late_ms": late_ms}),
@@ -154,6 +158,7 @@ fn spec_from_json(v: &Value) -> Option<Spec> {
         "walk" => Spec::Walk { content: segs_from(&v["content"]), maxb: g("max_bytes"), fuel: g("fuel") },
         "truncate_utf8" => Spec::Trunc { bs: hex::decode(v["bytes_hex"].as_str()?).ok()?, maxb: g("max_bytes") },
         "pump" => Spec::Pump { cap: g("cap"), plimit: g("preview_limit"), content: segs_from(&v["content"]), sizes: u64s(&v["sizes"]) },
+        "pty_pump" => Spec::PtyPump { cap: g("cap"), plimit: g("preview_limit"), content: segs_from(&v["content"]), sizes: u64s(&v["sizes"]) },
         "capture_stream" => Spec::Capture { pmax: g("preview_limit"), amax: g("cap"), content: segs_from(&v["content"]), sizes: u64s(&v["sizes"]) },
         "lifecycle" => Spec::Lifecycle { codes: u64s(&v["codes"]) },
         "task" => Spec::Task { variant: g("variant"), out: segs_from(&v["stdout"]), err: segs_from(&v["stderr"]), cap: g("cap"), plimit: g("preview_limit"), exit: g("exit"), cancel_after_ms: v.get("cancel_after_ms").and_then(|x| x.as_u64()), page: g("page"), late_ms: g("late_ms") },
@@ -506,14 +511,21 @@ fn frames_oracle(o: &mut Obs, frames: &[(Vec<u8>, Value)], stored: u64, plimit: 
     }
 }
 
-async fn run_pump(cap: u64, plimit: u64, content: &Segs, sizes: &[u64]) -> Obs {
+async fn run_pump(cap: u64, plimit: u64, content: &Segs, sizes: &[u64], pty: bool) -> Obs {
     let mut o = Obs::default();
     let ws = Scratch::new("c17pu");
     let bytes = expand(content);
     let chunks = split_sizes(sizes, &bytes);
     let data = ws.path().join("data");
     std::fs::create_dir_all(&data).unwrap();
-    let (id, events, summary) = match ripd::verif::tasks::pump_run(&data, ws.path(), reader(chunks.clone()), cap as usize, plimit as usize).await {
+    let ran = if pty {
+        // the reader thread never sends an empty read
+        let nonempty: Vec<Vec<u8>> = chunks.iter().filter(|c| !c.is_empty()).cloned().collect();
+        ripd::verif::tasks::pty_emit_run(&data, ws.path(), &nonempty, cap as usize, plimit as usize).await
+    } else {
+        ripd::verif::tasks::pump_run(&data, ws.path(), reader(chunks.clone()), cap as usize, plimit as usize).await
+    };
+    let (id, events, summary) = match ran {
         Ok(x) => x,
         Err(e) => {
             o.fail("harness_io", format!("pump_run: {e}"));
@@ -521,7 +533,7 @@ async fn run_pump(cap: u64, plimit: u64, content: &Segs, sizes: &[u64]) -> Obs {
         }
     };
     let evs: Vec<Value> = events.iter().map(|e| serde_json::to_value(e).unwrap()).collect();
-    let frames = delta_frames(&evs, "stdout");
+    let frames = delta_frames(&evs, if pty { "pty" } else { "stdout" });
     o.enc.push(frames.len() as u64);
     for (pv, v) in &frames {
         enc_bytes(&mut o.enc, pv);
@@ -654,7 +666,8 @@ async fn run_spec(s: &Spec) -> Obs {
         Spec::Pages { content, reqs } => run_pages(content, reqs).await,
         Spec::Walk { content, maxb, fuel } => run_walk(content, *maxb, *fuel).await,
         Spec::Trunc { bs, maxb } => run_trunc(bs, *maxb),
-        Spec::Pump { cap, plimit, content, sizes } => run_pump(*cap, *plimit, content, sizes).await,
+        Spec::Pump { cap, plimit, content, sizes } => run_pump(*cap, *plimit, content, sizes, false).await,
+        Spec::PtyPump { cap, plimit, content, sizes } => run_pump(*cap, *plimit, content, sizes, true).await,
         Spec::Capture { pmax, amax, content, sizes } => run_capture(*pmax, *amax, content, sizes).await,
         Spec::Lifecycle { .. } | Spec::Task { .. } | Spec::Bash { .. } => Obs::default(),
     }
@@ -1101,7 +1114,11 @@ fn gen_spec(r: &mut Rng) -> Spec {
             let content = gen_content(r, &[plimit.min(200), cap.min(200), 20], true);
             let len = expand(&content).len() as u64;
             let sizes = gen_sizes(r, len, 1);
-            Spec::Pump { cap, plimit, content, sizes }
+            if r.chance(1, 3) {
+                Spec::PtyPump { cap, plimit, content, sizes }
+            } else {
+                Spec::Pump { cap, plimit, content, sizes }
+            }
         }
         _ => {
             let pmax = *r.pick(&limits[..]);
@@ -1124,6 +1141,9 @@ fn corpus() -> Vec<Spec> {
         // S17: preview limit 0 / smaller than the first character
         Spec::Pump { cap: 100, plimit: 0, content: vec![(b"hello".to_vec(), 1)], sizes: vec![2, 3] },
         Spec::Pump { cap: 100, plimit: 1, content: vec![(e.clone(), 2), (b"ab".to_vec(), 1)], sizes: vec![4, 2] },
+        // S20 on the PTY path: "éé" read as 1 + 3 bytes; S17 on the PTY path
+        Spec::PtyPump { cap: 100, plimit: 64, content: vec![(e.clone(), 2)], sizes: vec![1, 3] },
+        Spec::PtyPump { cap: 100, plimit: 0, content: vec![(b"hello".to_vec(), 1)], sizes: vec![2, 3] },
         // hand-over corners of capture_stream
         Spec::Capture { pmax: 4, amax: 100, content: vec![(b"abcdefgh".to_vec(), 1)], sizes: vec![4, 4] },
         Spec::Capture { pmax: 4, amax: 3, content: vec![(b"abcdefgh".to_vec(), 1)], sizes: vec![3, 3, 2] },
@@ -1138,7 +1158,7 @@ fn nontrivial(s: &Spec) -> bool {
         Spec::LogWriter { cap, content, sizes } => sizes.len() > 1 && expand(content).len() as u64 > *cap / 2,
         Spec::Pages { content, .. } | Spec::Walk { content, .. } => expand(content).iter().any(|b| *b >= 0x80),
         Spec::Trunc { bs, maxb } => (bs.len() as u64) > *maxb,
-        Spec::Pump { content, sizes, .. } | Spec::Capture { content, sizes, .. } => sizes.len() > 1 && !expand(content).is_empty(),
+        Spec::Pump { content, sizes, .. } | Spec::PtyPump { content, sizes, .. } | Spec::Capture { content, sizes, .. } => sizes.len() > 1 && !expand(content).is_empty(),
         Spec::Lifecycle { codes } => codes.len() > 2,
         Spec::Task { out, err, .. } | Spec::Bash { out, err, .. } => !expand(out).is_empty() || !expand(err).is_empty(),
     }
@@ -1150,6 +1170,7 @@ fn kind_name(s: &Spec) -> &'static str {
         Spec::Walk { .. } => "walk",
         Spec::Trunc { .. } => "truncate_utf8",
         Spec::Pump { .. } => "pump",
+        Spec::PtyPump { .. } => "pty_pump",
         Spec::Capture { .. } => "capture_stream",
         Spec::Lifecycle { .. } => "lifecycle",
         Spec::Task { .. } => "task",
